@@ -334,10 +334,14 @@ pub fn mock(ops: &[Op], public: &[F]) -> MockRun {
         let r = catch(|| MockProver::run(k, &circuit, vec![vec![], public.to_vec()]));
         let outcome = circuit.outcome.borrow().clone();
         match r {
+            Err(p) if p.contains("usable_rows") && k < 19 => {
+                k += 1;
+                continue;
+            }
             Err(p) => return MockRun { verdict: Err(format!("panic: {p}")), outcome, prover: None },
             Ok(Err(e)) => {
                 let msg = format!("{e:?} {}", outcome.error.clone().unwrap_or_default());
-                if msg.contains("NotEnoughRows") && k < 19 {
+                if (msg.contains("NotEnoughRows") || msg.contains("usable_rows")) && k < 19 {
                     k += 1;
                     continue;
                 }
@@ -397,6 +401,36 @@ fn values(w: u32, rng: &mut rand_chacha::ChaCha8Rng) -> Vec<BigUint> {
     v
 }
 
+/// `nb_bits()` of `add(in(w), fix(a))` (the bound the caller of `constrain_as_public_input`
+/// must know): limb-wise `bound_of_addition`, then all-96 limbs if a bound exceeds 96.
+fn sum_bits(w: u32, a: &BigUint) -> u32 {
+    let sb = |nb: u32| -> Vec<u32> {
+        let n = nb.max(1).div_ceil(96) as usize;
+        let mut v = vec![96; n];
+        v[n - 1] = (nb - 1) % 96 + 1;
+        v
+    };
+    let (x, y) = (sb(w), sb((a.bits() as u32).max(1)));
+    let n = x.len().max(y.len());
+    let mut z = vec![];
+    for i in 0..n {
+        let (b1, b2) = (x.get(i).copied(), y.get(i).copied());
+        z.push(match (b1, b2) {
+            (Some(0), Some(b)) | (Some(b), Some(0)) => b,
+            (Some(b1), Some(b2)) => 1 + b1.max(b2),
+            (Some(b), None) | (None, Some(b)) => b,
+            _ => 0,
+        });
+    }
+    let maxv = z.iter().rev().fold(BigUint::zero(), |acc, b| (acc << 96u32) + (BigUint::one() << *b) - BigUint::one());
+    let nb = maxv.bits() as u32;
+    if z.iter().all(|b| *b <= 96) {
+        nb
+    } else {
+        96 * nb.div_ceil(96)
+    }
+}
+
 pub fn gen_cases(ctx: &Ctx) -> Vec<Case> {
     let mut rng = ctx.rng("big");
     let quick = ctx.quick();
@@ -449,7 +483,7 @@ pub fn gen_cases(ctx: &Ctx) -> Vec<Case> {
                         fop!("asserteqc", 2, hex(a)),
                     ],
                 );
-                push("pi", vec![fop!("in", hex(a), w), fop!("pi", 0, w), fop!("fix", hex(a)), fop!("add", 0, 2), fop!("pi", 3, w + 1)]);
+                push("pi", vec![fop!("in", hex(a), w), fop!("pi", 0, w), fop!("fix", hex(a)), fop!("add", 0, 2), fop!("pi", 3, sum_bits(w, a))]);
                 push("pi-wrong-bits", vec![fop!("in", hex(a), w), fop!("pi", 0, w + 1)]);
                 push("select", vec![fop!("in", hex(a), w), fop!("fix", hex(&vs[(i + 1) % vs.len()])), fop!("inbit", i % 2), fop!("select", 2, 0, 1), fop!("mul", 3, 3)]);
                 push("assert-wrong", vec![fop!("in", hex(a), w), fop!("fix", hex(&(a + BigUint::one()))), fop!("asserteq", 0, 1)]);
